@@ -583,7 +583,7 @@ def judge_cases(ctx, cases, *, tamper_build=None, tamper_real=None, steps=True):
         if tamper_real is not None:
             tamper_real(i, outs, mp, orc)
         # ---- judge batch: policies returned by converged runs
-        base = {k: mp[k] for k in ("N", "K", "PD", "GN", "GD", "ID", "abs", "avail", "P", "R", "p0")}
+        base = {k: mp[k] for k in ("N", "K", "PD", "GN", "GD", "ID", "RD", "abs", "avail", "P", "R", "p0")}
         for key, o in outs.items():
             if "error" in o or not o["conv"]:
                 continue
@@ -637,8 +637,9 @@ def judge_cases(ctx, cases, *, tamper_build=None, tamper_real=None, steps=True):
 
 def judge_one(ctx, jby, steps, i, c, b, mp, orc, exact, myruns, outs):
     N, K = mp["N"], mp["K"]
+    rd = orc["rd"]
     disc = orc["disc"]
-    shape = shape_of(orc, mp)
+    shape = shape_of(orc, mp) + ("+near-tie-rewards" if c.get("tie") else "")
     default = tuple(min(j + 1 for j in range(K) if mp["avail"][s][j]) for s in range(N))
     case_ok = True
     any_conv = False
@@ -648,7 +649,7 @@ def judge_one(ctx, jby, steps, i, c, b, mp, orc, exact, myruns, outs):
         plan = key == "plan"
         p0 = default if plan else key
         mrecs = myruns[p0]
-        whys = [machine_explains(r, o, plan) for r in mrecs]
+        whys = [machine_explains(r, o, plan, rd) for r in mrecs]
         k_ok = next((k for k, w in enumerate(whys) if w is None), 0)
         mrec = mrecs[k_ok]                    # the behaviour that explains the run (else the first one)
         predicts_unbound = any(r["phase"] == "cap" and not r["bqdef"] for r in mrecs)
@@ -690,18 +691,27 @@ def judge_one(ctx, jby, steps, i, c, b, mp, orc, exact, myruns, outs):
         # ---- clause: values (discounted) / gains (undiscounted) equal the optimum at every listed state
         got = o["val"] if disc else o["gain"]
         clause = "state_value" if disc else "state_gain"
-        for s in range(N):
-            d = dev(got[s], exact[s])
-            if d == "bad":
-                fail(clause, f"{clause}[{s}] = {got[s]!r} but the optimum is {exact[s]} = {float(exact[s])!r} (converged after {o['its']} iterations)",
-                     {"optimum": [str(x) for x in exact], "got": got})
-                run_ok = False
-                break
-            if d == "window":
-                ctx.drift("tie-window", {"case": digest(c), "run": tag, "state": s, "got": got[s], "optimum": str(exact[s])})
-                run_ok = False
-        # ---- clauses on the returned policy
         jr = jby.get(tag)
+        # a difference from the optimum is excused only if the spec's exact stop gaps show that the run stopped
+        # inside msdm's own np.isclose window (reported, not judged); a kept action that is worse by more is not
+        excused = None
+
+        def window():
+            nonlocal excused
+            if excused is None:
+                excused = inside_isclose_window(jr, got, rd)
+                if excused:
+                    ctx.drift("tie-window", {"case": digest(c), "run": tag, "got": got, "optimum": [str(x) for x in exact]})
+            return excused
+
+        for s in range(N):
+            if dev(got[s], exact[s]) == "bad":
+                run_ok = False
+                if not window():
+                    fail(clause, f"{clause}[{s}] = {got[s]!r} but the optimum is {exact[s]} = {float(exact[s])!r} (converged after {o['its']} iterations)",
+                         {"optimum": [str(x) for x in exact], "got": got})
+                break
+        # ---- clauses on the returned policy
         if plan:
             if o.get("rows_ok") is False:
                 fail("policy-support", f"a policy row is not a probability distribution: {o['polw']}")
@@ -722,29 +732,25 @@ def judge_one(ctx, jby, steps, i, c, b, mp, orc, exact, myruns, outs):
                 else:
                     for s in range(N):
                         if not jr["attains"][s]:
-                            pvs = frac(jr["pv"][s])
-                            if abs(float(pvs - exact[s])) <= WINDOW * max(1.0, abs(float(exact[s]))):
-                                # a loss this small can only come from msdm's np.isclose tie window: not judged
-                                ctx.drift("tie-window", {"case": digest(c), "run": tag, "state": s,
-                                                         "policy_value": str(pvs), "optimum": str(exact[s])})
-                                run_ok = False
-                                continue
-                            fail("policy-attains", f"exact {'value' if disc else 'gain'} of the returned policy at state {s} is "
-                                                   f"{pvs}, the optimum is {exact[s]}",
-                                 {"policy_value": jr["pv"], "optimum": orc["v"]})
                             run_ok = False
+                            if not window():
+                                fail("policy-attains", f"exact {'value' if disc else 'gain'} of the returned policy at state {s} is "
+                                                       f"{fr(jr['pv'][s], rd)}, the optimum is {exact[s]}",
+                                     {"policy_value": jr["pv"], "optimum": orc["v"], "rd": rd})
                             break
         # ---- clause: aggregates over the initial distribution
         if plan:
-            einit = frac(orc["init"])
+            einit = fr(orc["init"], rd)
             if disc:
                 if dev(o["init_value"], einit) == "bad":
-                    fail("initial_value", f"initial_value = {o['init_value']!r}, optimal value of the initial distribution is {einit}")
                     run_ok = False
+                    if not window():
+                        fail("initial_value", f"initial_value = {o['init_value']!r}, optimal value of the initial distribution is {einit}")
             else:
                 if dev(o["init_gain"], einit) == "bad":
-                    fail("initial_gain", f"initial_gain = {o['init_gain']!r}, optimal gain of the initial distribution is {einit}")
                     run_ok = False
+                    if not window():
+                        fail("initial_gain", f"initial_gain = {o['init_gain']!r}, optimal gain of the initial distribution is {einit}")
         if run_ok and why is None:
             ctx.validated += 1
 
@@ -785,7 +791,7 @@ def judge_one(ctx, jby, steps, i, c, b, mp, orc, exact, myruns, outs):
     n_na = sum(1 for x in mp["abs"] if not x)
     if any_conv and n_na >= 2 and orc["nvals"] >= 2:
         ctx.nontrivial(digest({"m": mp, "rep": c["rep"]}))
-    ctx.sample({"instance_in_planner_order": {k: mp[k] for k in ("N", "K", "PD", "GN", "GD", "abs", "avail", "P", "R", "p0", "CAP")},
+    ctx.sample({"instance_in_planner_order": {k: mp[k] for k in ("N", "K", "PD", "GN", "GD", "RD", "abs", "avail", "P", "R", "p0", "CAP")},
                 "rep": c["rep"], "shape": shape, "optimum": [str(x) for x in exact],
                 "plan_on": {k: outs["plan"].get(k) for k in ("its", "conv", "gain", "val", "error")}})
 
@@ -797,13 +803,16 @@ def run(ctx):
     ctx.rule = ("random members of MDPFam (0-3 non-absorbing + 0-2 explicitly absorbing states with ghost dynamics, 1-3 "
                 "state-dependent actions, no action-less state, discount in {1/2,3/4,9/10} with rewards of both signs and 1 "
                 "(unichain / multichain, with / without absorbing states), PD in {2,4}) x max_iterations in {1..4, 80} x "
-                "representation x initial decision rule; non-trivial = converged run on an instance with >=2 non-absorbing "
+                "representation x initial decision rule; every 4th case from the near-tie reward family (rewards over RD = 2500, two "
+                "actions of one state 4e-4 or 8e-4 apart in the bias step (discount 1/2, 3/4, 1) or in the gain step, runs started "
+                "on the slightly worse action); non-trivial = converged run on an instance with >=2 non-absorbing "
                 "listed states on which at least two deterministic policies have different exact value (gain) vectors")
     ctx.assumptions = [
         "TLC evaluates the TLA+ oracles correctly (cross-checked on every 3rd case against exact Gaussian elimination of the "
         "evaluation equations with policy enumeration, and on every 5th undiscounted case against the multichain linear program)",
-        "floats are compared with exact rationals at 1e-9 relative (direct linear-algebra outputs); deviations between 1e-9 and "
-        "1e-4 lie inside msdm's own np.isclose tie window and are reported as DRIFT, not judged",
+        "floats are compared with exact rationals at 1e-9 relative (direct linear-algebra outputs); a converged result that "
+        "differs from the optimum is excused (DRIFT tie-window) only if its values are the exact evaluation of the returned policy "
+        "and the spec's exact stop gaps of the rule it rests on are all within np.isclose's default window 1e-8 + 1e-5|max|",
         "runs that do not report convergence are counted, not judged (the statement is conditional on reported convergence)",
     ]
     cases = make_cases(rng, n, ctx.tier)
@@ -864,7 +873,7 @@ def selftest(ctx):
         m2["R"] = [[[x + 3 for x in row] for row in act] for act in m["R"]]
         return m2
     # a case on which a uniform reward shift changes the optimum: non-absorbing initial state
-    k = next(k for k, c in enumerate(cases) if sum(1 for x in c["m"]["abs"] if not x) >= 2
+    k = next(k for k, c in enumerate(cases) if "tie" not in c and sum(1 for x in c["m"]["abs"] if not x) >= 2
              and all(c["m"]["p0"][s] == 0 for s in range(c["m"]["N"]) if c["m"]["abs"][s]))
     cases = [cases[k]]
     v3 = run_and_collect(tamper_build=tamper_build)
